@@ -387,7 +387,9 @@ func c18GenString(t *rapid.T) string {
 
 // c18Boundaries: length limits are enforced exactly, for every filler class and split position.
 func c18Boundaries(rec *ev.Rec) (string, string) {
-	fillers := []string{"a", "Z", "7", "_"}
+	// ASCII fillers plus BMP multi-byte fillers: Go counts code points, JS and Java count UTF-16 units,
+	// which coincide on the BMP, so "characters" is unambiguous for these
+	fillers := []string{"a", "Z", "7", "_", "é", "д", "中"}
 	lens := []int{0, 1, 2, 49, 50, 51, 253, 254, 255, 256, 257}
 	var n int64
 	for _, f := range fillers {
@@ -411,7 +413,7 @@ func c18Boundaries(rec *ev.Rec) (string, string) {
 				if il < 1 {
 					continue
 				}
-				s := strings.Repeat(f, tl) + ":" + strings.Repeat(f, il)
+				s := strings.Repeat(f, tl) + ":" + strings.Repeat(f, 1) + strings.Repeat("a", il-1)
 				want := tl <= 254 && total <= 256
 				n += 3
 				if got := validation.ValidateObject(s); got != want {
